@@ -249,12 +249,15 @@ class System:
             key = key.strip()
             value = value.strip()
 
+            # the section may be missing from the rc file, or may have been added by a previous option
+            if not self._config_object.has_section(section):
+                self._config_object.add_section(section)
+
+            self._config_object.set(section, key, value)
+
             if not newobj:
-                self._config_object.set(section, key, value)
                 logger.debug("Existing config option set: %s.%s=%s", section, key, value)
             else:
-                self._config_object.add_section(section)
-                self._config_object.set(section, key, value)
                 logger.debug("New config option added: %s.%s=%s", section, key, value)
 
     def reload(self, case, **kwargs):
